@@ -26,6 +26,43 @@ def _extra(db, res, tier, scope):
   res.ob(None not in order and order[0] < order[1] < order[2], "_advance|order", Finding("R-SEQ.3", "forward._advance|order", "activation, velocity and position must be advanced in this order (semi-implicit Euler uses the new velocity for the position)", "mujoco_warp/_src/forward.py"))
 
 
+# R-SIGN.10: (entry, array, callee on the stack, accumulation kinds allowed, the sign argument)
+SYSTEM_MATRIX_SIGNS = [
+  (
+    "forward.implicit",
+    "Data.qLU",
+    "derivative.deriv_rne_vel",
+    ("atomic_add",),
+    "mj_implicit solves (M - dt*qDeriv) with qDeriv = d(qfrc_smooth)/d(qvel); the bias force enters qfrc_smooth with a minus sign, so its velocity derivative cdof . d(cfrc_body)/d(qvel) = +d(bias)/d(qvel), scaled by dt, is ADDED to qLU = M - dt*qDeriv_smooth (mjd_rne_vel does `qDeriv -= ...`, hence `M - dt*qDeriv` gets `+ dt * ...`); the repository's own derivative test asserts deriv_rne_vel(out) == -dt * mjd.qDeriv",
+  ),
+]
+
+
+def check_system_matrix_signs(db, res) -> int:
+  """R-SIGN.10: the tabled accumulations into the implicit integrator's system matrix have the tabled sign."""
+  from ..rules.world import array_key
+
+  n = 0
+  for entry, key, callee, kinds, why in SYSTEM_MATRIX_SIGNS:
+    hits = 0
+    for lc in db.trace_launch_ctxs(entry):
+      if callee not in lc.ev.stack:
+        continue
+      for a in lc.keval.accesses:
+        if a.is_write and array_key(lc, a.root) == key:
+          hits += 1
+          n += 1
+          res.ob(
+            a.kind in kinds,
+            f"{entry}|{key}|{lc.name}|{a.loc.rsplit(':', 1)[-1]}",
+            Finding("R-SIGN.10", f"{entry}|{key}|{callee}|accumulation-sign", f"{lc.name} (called through {callee}) accumulates into {key} with `{a.kind}`, expected {kinds}: {why}", a.loc),
+            sample={"entry": entry, "array": key, "kernel": lc.name, "kind": a.kind},
+          )
+    if hits == 0:
+      res.error(f"anchor vanished: no accumulation into {key} under {callee} on the trace of {entry}")
+  return n
+
+
 def _integrator_pair(fn, k) -> bool:
   return any(x in k for x in ("forward.implicit", "forward.euler", "forward.rungekutta4")) or fn in ("forward.implicit", "forward.euler", "forward.rungekutta4", "forward._advance")
 
@@ -37,8 +74,10 @@ def run(db, res, tier):
   from ..rules import r_live
   from ..tables import live_tables
 
+  nsg = check_system_matrix_signs(db, res)
+  res.floor("system-matrix accumulation signs (R-SIGN.10)", nsg, 1)
   tab = {(fn, k) for fn, k in live_tables.INIT_BEFORE_PARTIAL if _integrator_pair(fn, k)}
   ninit = r_live.check_cleared_before_partial(res, db, ["forward.step"], tab)
   res.floor("integrator init-before-partial pairs (R-LIVE.7)", ninit, 6)
-  res.rule_text += "; R-LIVE.7: every integrator workspace that today's tree fully defines before accumulating into it / factorising it in place still has a dominating full definition"
+  res.rule_text += "; R-SIGN.10: the velocity derivative of the bias force is ADDED (scaled by dt) to the implicit integrator's system matrix M - dt*qDeriv_smooth (tabled sign with its derivation); R-LIVE.7: every integrator workspace that today's tree fully defines before accumulating into it / factorising it in place still has a dominating full definition"
   res.rule_text += "; R-PAIR: RK4 restores qpos/qvel/act from its t0 clones before the final advance; R-SEQ: _advance inserts history before advancing time, advances act, qvel, qpos once each in that order, copies qacc into qacc_warmstart"
